@@ -29,7 +29,7 @@ def observe_record(rec):
     phases.append({
         'name': p.name, 'outcome': nm(p.outcome), 'result': result_kind(p.result), 'subtest': p.subtest_name,
         'diag': [d.name for d in p.diagnosis_results], 'fdiag': [d.name for d in p.failure_diagnosis_results],
-        'meas': {k: nm(m.outcome) for k, m in (p.measurements or {}).items()},
+        'meas': {k: nm(m.outcome) for k, m in (p.measurements or {}).items() if not k.startswith('mon_p')},   # not the monitor's own
         'marginal': p.marginal,
         'has_options': p.options is not None,
         'start': p.start_time_millis, 'end': p.end_time_millis,
